@@ -302,12 +302,39 @@ func runPoolEscape(rc *RuleCtx) {
 					}
 				}
 			}
-			if len(puts) == 0 {
+			// deferred Puts (`defer pool.Put(x)` / `defer FreeX(x)`) run at every exit
+			var deferPuts []ssa.Instruction
+			for _, b := range fn.Blocks {
+				for _, ins := range b.Instrs {
+					d, ok := ins.(*ssa.Defer)
+					if !ok {
+						continue
+					}
+					if cal := d.Call.StaticCallee(); cal != nil {
+						if idx, ok := putters[cal]; ok && idx < len(d.Call.Args) && derived[d.Call.Args[idx]] {
+							deferPuts = append(deferPuts, ins)
+						}
+					} else if !d.Call.IsInvoke() {
+						// defer pool.Put(x) through a bound method value is not used in this repository
+					}
+				}
+			}
+			if len(puts) == 0 && len(deferPuts) == 0 {
 				continue
 			}
 			rc.Examined++
 			bad := ""
 			badPos := o.Pos()
+			for _, dp := range deferPuts {
+				for ins := range reachAfter(dp) {
+					for _, p2 := range puts {
+						if p2 == ins && bad == "" {
+							bad = "the pooled object is returned to the pool by a deferred Put and, on the same path, by an explicit Put at " + w.relPos(ins.Pos()) + ": two later Gets will share it"
+							badPos = ins.Pos()
+						}
+					}
+				}
+			}
 			for _, b := range fn.Blocks {
 				for _, ins := range b.Instrs {
 					switch x := ins.(type) {
